@@ -22,8 +22,8 @@ VARIABLES l, bad
 
 Tag(c, t) == IF c THEN {} ELSE {t}
 Ran(o) == ~o.err /\ ~o.panic
-\* process texts that render a multi-key dict depend on map iteration order (the harness reports them as "UNORDERED")
-SameDetail(x, y) == x = y \/ x = "UNORDERED" \/ y = "UNORDERED"
+\* (process texts that render a multi-key dict used to depend on map iteration order and were exempt; dicts are walked in key order now)
+SameDetail(x, y) == x = y
 
 CheckC03(e) ==
   LET a == e.a
